@@ -115,7 +115,8 @@ def k7_calls(isa, t, tier, rng, half=None):
         calls.append("g_view2d<%s,%d,%d>();" % (t, m, n))
     for n in sizes(3, [rng.choice(edge)]):
         m = rng.choice([1, 2, 3, 4])
-        calls.append("g_outer_map<%s,%d,%d>();" % (t, m, n))
+        if (m, n) != (1, 1):        # outer(Tensor<T,1>, Tensor<T,1>) is an ambiguous overload: does not compile
+            calls.append("g_outer_map<%s,%d,%d>();" % (t, m, n))
         calls.append("g_outer_raw<%s,%d,%d>();" % (t, n, m))
     if isf:
         for (m, n) in [(2, 2), (3, 3), (1, 4), (1, 9), (4, 4)] + [(rng.randint(1, 4), n) for n in sizes(2)]:
@@ -173,6 +174,9 @@ def k7_calls(isa, t, tier, rng, half=None):
                     "g_einsum_ijjk<float,8,3,8>();", "g_outer_map<float,4,4>();", "g_matmul_map<float,4,1,4>();", "g_outer22_map<float,2,2>();",
                     "g_norm_map<float,1,4>();", "g_norm_map<float,2,2>();", "g_norm_map<float,4,1>();"]
     if isf:
+        # the fixed-size outer-product kernels (2, 3, 4 element vectors) raw and through maps
+        special += ["g_outer_raw<%s,3,3>();" % t, "g_outer_raw<%s,2,2>();" % t, "g_outer_raw<%s,4,4>();" % t, "g_outer_map<%s,3,3>();" % t,
+                    "g_matmul_map<%s,3,1,3>();" % t]
         special += ["g_det_map<%s,2>();" % t, "g_own_batch_la<%s,3,2>();" % t, "g_own_batch_la<%s,5,2>();" % t, "g_outer22_map<%s,3,3>();" % t,
                     "g_heap_new<%s,64>();" % t, "g_heap_new<%s,9>();" % t]
     nspecial = len(special)
@@ -185,7 +189,7 @@ def k7_calls(isa, t, tier, rng, half=None):
         seen.add(c); out.append(c)
     return out
 
-KEEP = re.compile(r"g_(trans_assign|own_batch|own_batch_la|heap_new|outer22_map|own_1d|expr_arith|reduce_map|inner_map|methods_map|methods_tensor|view1d|expr_mixed|reduce_expr|expr_math|norm_raw|minmax_map|matmul_raw|matmul_map|matmul_expr)<")
+KEEP = re.compile(r"g_(outer_raw<\w+,[234],[234]>|trans_assign|own_batch|own_batch_la|heap_new|outer22_map|own_1d|expr_arith|reduce_map|inner_map|methods_map|methods_tensor|view1d|expr_mixed|reduce_expr|expr_math|norm_raw|minmax_map|matmul_raw|matmul_map|matmul_expr)<")
 
 def thin(calls, stride, seed):
     """quick tier: the families that carry the `every extent 1..2V+3` sweep and the public-API specials are kept, the
@@ -201,13 +205,13 @@ def k7_groups(tier, seed):
     isas = ["scalar", "sse2", "avx2", "avx512"] if tier == "quick" else core.ALL_ISAS
     groups = []
     for isa in isas:
-        types = TYPES if tier == "quick" else TYPES + CPLX
+        types = TYPES if tier == "quick" else (TYPES + CPLX if isa in ("sse2", "avx2", "avx512") else ["float", "int32_t"])
         for t in types:
             # quick tier: the two element types of equal size share the `every extent` sweeps (odd / even extents)
             half = None if tier != "quick" else ((seed + (1 if t in ("int32_t", "int64_t") else 0)) % 2)
             # thorough: every extent of every family under sse2 / avx2 / avx512; the other flag sets (same kernels, other widths or
             # helper branches) get the un-thinned sampled corpus
-            gen_tier = tier if (tier == "quick" or isa in ("sse2", "avx2", "avx512")) else "quick"
+            gen_tier = tier if (tier == "quick" or (isa in ("sse2", "avx2", "avx512") and t in FTYPES)) else "quick"
             calls = k7_calls(isa, t, gen_tier, rng, half)
             if tier == "quick":
                 calls = thin(calls, 6 if isa == "scalar" else 3, seed)
@@ -277,7 +281,7 @@ def extra_k7_groups(tier, seed):
     groups.append({"key": "k7-checks/avx512", "header": "guard_ops.h", "isa": "avx512", "opt": "-O2", "defs": ["-DVG_CHECKS", "-UNDEBUG"], "calls": bc, "pre": pre})
     if tier == "thorough":
         for isa in ["sse2", "avx2", "avx512"]:
-            for t in TYPES:
+            for t in FTYPES + ["int32_t"]:
                 calls = thin(k7_calls(isa, t, "quick", rng), 3, seed)
                 groups.append({"key": "k7-asan/%s/%s" % (isa, t), "header": "guard_ops.h", "isa": isa, "opt": "-O1",
                                "defs": ["-fsanitize=address,undefined", "-fno-sanitize-recover=undefined", "-fno-omit-frame-pointer"], "calls": calls, "pre": pre})
@@ -328,7 +332,7 @@ def run(tier, seed):
             k = inp.split()[0]; kinds[k] = kinds.get(k, 0) + 1
         # ---- K7 observations
         kg = k7_groups(tier, seed) + extra_k7_groups(tier, seed)
-        kn, kfail, kinfra, ksamples = flow.run_oracle_groups(kg, wd, per_tu=24 if tier == "quick" else 30)
+        kn, kfail, kinfra, ksamples = flow.run_oracle_groups(kg, wd, per_tu=24 if tier == "quick" else 16)
         # a translation unit that died (sanitizer abort, uncaught crash outside the protected region) names its group and output
         for e in kinfra:
             if e["what"].startswith("run"):
